@@ -5,7 +5,7 @@
 # compiles; the repository's own tests still pass with it; the demo fails with
 # it. Then runs the given checks (quick tier) against the patched copy.
 set -u
-dir="$1"; shift
+dir="$(cd "$1" && pwd)"; shift
 export GOFLAGS=-mod=mod GOPROXY=off GOSUMDB=off GOTOOLCHAIN=local
 scratch=$(mktemp -d /tmp/seeded-run.XXXXXX)
 trap 'rm -rf "$scratch"' EXIT
